@@ -87,7 +87,7 @@ func (wtr *JSONWtr) Node() node.Node {
 				return err
 			}
 			if meta.IsList(r.Selection.Meta()) && !r.Selection.InsideList {
-				ident := wtr.ident(r.Selection.Path)
+				ident := wtr.ident(r.Selection.Path, true)
 				if err := wtr.beginList(ident); err != nil {
 					return err
 				}
@@ -142,13 +142,13 @@ func (wtr *JSONWtr) container(lvl int) node.Node {
 			return nil, err
 		}
 		if meta.IsList(r.Meta) {
-			if err = wtr.beginList(wtr.ident(r.Path)); err != nil {
+			if err = wtr.beginList(wtr.ident(r.Path, lvl == 0)); err != nil {
 				return nil, err
 			}
 			return wtr.container(lvl + 1), nil
 
 		}
-		if err = wtr.beginContainer(wtr.ident(r.Path), lvl); err != nil {
+		if err = wtr.beginContainer(wtr.ident(r.Path, lvl == 0), lvl); err != nil {
 			return nil, err
 		}
 		return wtr.container(lvl + 1), nil
@@ -172,7 +172,7 @@ func (wtr *JSONWtr) container(lvl int) node.Node {
 		if err = delim(); err != nil {
 			return err
 		}
-		err = wtr.writeValue(r.Path, hnd.Val)
+		err = wtr.writeMember(r.Path, hnd.Val, lvl == 0)
 		return
 	}
 	s.OnNext = func(r node.ListRequest) (next node.Node, key []val.Value, err error) {
@@ -190,11 +190,13 @@ func (wtr *JSONWtr) container(lvl int) node.Node {
 	return s
 }
 
-func (wtr *JSONWtr) ident(p *node.Path) string {
+// ident is the member name. topLevel is true for members of the outermost object
+// which RFC7951 always qualifies no matter where in the tree the output starts.
+func (wtr *JSONWtr) ident(p *node.Path, topLevel bool) string {
 	var qualify bool
 	s := p.Meta.(meta.Identifiable).Ident()
 	thisMod := meta.OriginalModule(p.Meta)
-	if p.Len() == 2 { // top-level
+	if topLevel || p.Len() == 2 {
 		qualify = true
 	} else {
 		parentMod := meta.OriginalModule(p.Parent.Meta)
@@ -255,7 +257,11 @@ func (wtr *JSONWtr) endContainer() (err error) {
 }
 
 func (wtr *JSONWtr) writeValue(p *node.Path, v val.Value) error {
-	wtr.writeIdent(wtr.ident(p))
+	return wtr.writeMember(p, v, false)
+}
+
+func (wtr *JSONWtr) writeMember(p *node.Path, v val.Value, topLevel bool) error {
+	wtr.writeIdent(wtr.ident(p, topLevel))
 	if v.Format().IsList() {
 		if _, err := wtr._out.WriteRune('['); err != nil {
 			return err
